@@ -437,7 +437,9 @@ json.dump({"results": res, "ids": ids}, sys.stdout)
 '''
 
 CACHE_IDS = ["Custom/A", "/Custom/A/", "Custom/B", "Europe/Berlin", "/Europe/Berlin", "W. Europe Standard Time",
-             "europe/berlin", "X-Y"]
+             "europe/berlin", "X-Y",
+             # a provider-known name padded with blanks is an id of its own (only solidi are cleaned away)
+             "Europe/Berlin ", " Europe/Berlin", " Custom/A"]
 
 
 def clean(i):
